@@ -494,6 +494,18 @@ class RealEnv(BaseEnv):
         self.faults = Faults()
         self.faults.install()
         self._umask = os.umask(0o022)
+        # user-side writes get explicit timestamps from a logical clock in steps of 0.25 s (mirrors the model's clock, so that
+        # replays of timestamp-sensitive counterexamples do not depend on how fast the replay runs)
+        import time
+
+        self._clock = float(int(time.time()) - 7200)
+
+    def _stamp(self, path):
+        self._clock += 0.25
+        try:
+            os.utime(path, (self._clock, self._clock), follow_symlinks=False)
+        except (OSError, NotImplementedError):
+            pass
 
     def write(self, path, data, mode=None, fs=None):
         os.makedirs(os.path.dirname(path), exist_ok=True)
@@ -503,6 +515,7 @@ class RealEnv(BaseEnv):
             f.write(data)
         if mode is not None:
             os.chmod(path, mode)
+        self._stamp(path)
 
     def read(self, path, fs=None):
         with open(path, "rb") as f:
@@ -527,10 +540,10 @@ class RealEnv(BaseEnv):
         with open(path + ".new", "wb") as f:
             f.write(data)
         os.replace(path + ".new", path)
+        self._stamp(path)
 
     def touch(self, path, fs=None):
-        st = os.stat(path)
-        os.utime(path, ns=(st.st_atime_ns, st.st_mtime_ns + 1_000_000_000))
+        self._stamp(path)
 
     def symlink(self, target, path):
         os.makedirs(os.path.dirname(path), exist_ok=True)
@@ -621,5 +634,20 @@ class RealEnv(BaseEnv):
         shutil.rmtree(self.root, onerror=_onerr)
 
 
+def reset_process_state():
+    """Every explored path stands for a fresh process: memoised answers held in dvc-data module globals (functools caches) must
+    not leak from one path into the next (they would make a counterexample depend on the exploration order)."""
+    for name, mod in list(sys.modules.items()):
+        if name == "dvc_data" or name.startswith("dvc_data."):
+            for attr in list(vars(mod).values()):
+                clear = getattr(attr, "cache_clear", None)
+                if callable(clear):
+                    try:
+                        clear()
+                    except Exception:  # noqa: BLE001
+                        pass
+
+
 def make_env():
+    reset_process_state()
     return RealEnv() if hlib.MODE == "real" else ModelEnv()
